@@ -264,6 +264,37 @@ def trick_stop_during_restart():
     return with_table(body)
 
 
+def trick_child_dies_at_once():
+    """the child exits the instant it is signalled and its watcher gets to poll right then (the signalling thread is held
+    for a few watcher periods): our own kill must not be taken for a spontaneous exit - one event is one restart"""
+    def body(t):
+        tr = tricks.AutoRestartTrick(["cmd"], restart_on_command_exit=True, kill_after=0.1)
+        tr.start()
+        first = [True]
+
+        def hook(pid, sig):
+            if first[0]:
+                first[0] = False
+                t.alive.discard(pid)          # dies at once
+                t.log.append(("died-on-signal", pid))
+                realtime.sleep(0.45)          # > 4 watcher poll periods
+                raise OSError(3, "no such process")
+        t.hook = hook
+        tr.on_any_event(FileModifiedEvent("/x"))
+        realtime.sleep(0.3)
+        spawned = [e[1] for e in t.log if e[0] == "spawn"]
+        out = []
+        if tr.restart_count != 1 or len(spawned) != 2:
+            out.append(f"one event, child exits at once when signalled: restart_count={tr.restart_count}, children spawned={spawned} (expected one restart, two children)")
+        if t.max_alive > 1:
+            out.append(f"{t.max_alive} children alive at once")
+        tr.stop()
+        if t.alive:
+            out.append(f"children alive after stop(): {sorted(t.alive)}")
+        return out
+    return with_table(body)
+
+
 def shell_trick(wait, drop):
     def body(t):
         tr = tricks.ShellCommandTrick("cmd", wait_for_process=wait, drop_during_process=drop)
@@ -358,7 +389,7 @@ def trick_event_while_watcher_polls():
     return with_table(body)
 
 
-SCEN = {"pw:stop-during-poll(stop first)": lambda: watcher_stop_during_poll(False), "pw:stop-during-poll(exit first)": lambda: watcher_stop_during_poll(True), "trick:event-while-watcher-polls": trick_event_while_watcher_polls,
+SCEN = {"pw:stop-during-poll(stop first)": lambda: watcher_stop_during_poll(False), "pw:stop-during-poll(exit first)": lambda: watcher_stop_during_poll(True), "trick:event-while-watcher-polls": trick_event_while_watcher_polls, "trick:child-dies-at-once-on-signal": trick_child_dies_at_once,
         "deb:event-before-first-wait": lambda: deb_scenario("event-before-first-wait"), "deb:stop-before-first-wait": lambda: deb_scenario("stop-before-first-wait"),
         "deb:order-and-once": lambda: deb_scenario("order-and-once"), "deb:nothing-after-stop": lambda: deb_scenario("nothing-after-stop"), "deb:quiet-interval": deb_timing,
         "trick:stop-during-restart": trick_stop_during_restart}
